@@ -1,36 +1,1180 @@
-//! probe (temporary)
-use loader_native as ln;
+//! C19 — loader tasks are isolated and safe under any call sequence.
+//!
+//! The real ABI functions (`loader_native::*` = /repo/crates/graphql-loader/src/main.rs compiled natively)
+//! run in CHILD PROCESSES (`c19 --worker`, see c19/worker.rs): a panic inside an `extern "C"` function
+//! aborts the process, and the loader's state is thread-local (fresh thread = fresh instance).
+//!
+//! K: every response of every call of a history, real code vs the Lean model (lean/Driver/C19.lean).
+//!    Emission is abstract in the model (a token naming the files the module may depend on); the token is
+//!    realised by a FRESH real task that is given exactly those files.
+//! O: the property on the real code with the harness' own bookkeeping (no model involved): no trap,
+//!    fresh increasing ids, unknown ids answer "Task not found", required files are exact, emit equals
+//!    the emit of a fresh task with the same files, per-task projections answer identically (isolation),
+//!    and the std `len == capacity` behaviours the loader's raw-parts code relies on.
+use nvh::*;
+use serde_json::{json, Value};
+use std::collections::{BTreeMap, BTreeSet, HashMap, HashSet};
+use std::path::Path;
 
-fn put(s: &str) -> (*mut u8, usize) {
-    let p = ln::alloc_string(s.len());
-    unsafe { std::ptr::copy_nonoverlapping(s.as_ptr(), p, s.len()) };
-    (p, s.len())
+#[path = "c19/pool.rs"]
+mod pool;
+#[path = "c19/worker.rs"]
+mod worker;
+use pool::{Cfg, RealResp, WorkerPool};
+
+const POOL: [&str; 10] = [
+    "query Q { a }",
+    "#import F from \"./f.graphql\"\nquery Q { ...F }",
+    "#import G from \"./g.graphql\"\nfragment F on T { x ...G }",
+    "fragment G on T { y }",
+    "query {",
+    "query Q { ...Missing }",
+    "fragment F on T { z }",
+    "#import * from \"../p/g.graphql\"\n#import F from \"./f.graphql\"\nquery R { ...F ...G }",
+    "#import * from \"./f.graphql\"\n#import * from \"./f.graphql\"\nquery Q { a }",
+    "#import F from \"./f.graphql\"\nfragment G on T { y ...F }",
+];
+const PATHS: [&str; 5] = ["/p/op.graphql", "/p/f.graphql", "/p/g.graphql", "/q/op.graphql", "/q/f.graphql"];
+
+const RULE: &str = "a history is non-trivial if it issues ≥ 2 task ids and addresses at least two of them after both exist, or addresses a freed or never-issued id, or re-supplies a path already loaded in a task";
+
+#[derive(Clone, Copy, PartialEq, Eq, Hash, Debug, PartialOrd, Ord)]
+pub enum Op {
+    /// initiate_task(path index, source index)
+    I(usize, usize),
+    /// get_required_files(task)
+    R(usize),
+    /// load_file(task, path index, source index)
+    L(usize, usize, usize),
+    /// emit_js(task)
+    E(usize),
+    /// free_task(task)
+    F(usize),
+    /// get_result_ptr/size
+    G,
 }
-fn result() -> String {
-    let p = ln::get_result_ptr();
-    let n = ln::get_result_size();
-    String::from_utf8_lossy(unsafe { std::slice::from_raw_parts(p, n) }).into_owned()
+pub type History = Vec<Op>;
+
+impl Op {
+    fn json(&self) -> Value {
+        match *self {
+            Op::I(p, s) => json!(["I", p, s]),
+            Op::R(t) => json!(["R", t]),
+            Op::L(t, p, s) => json!(["L", t, p, s]),
+            Op::E(t) => json!(["E", t]),
+            Op::F(t) => json!(["F", t]),
+            Op::G => json!(["G"]),
+        }
+    }
+    fn from_json(v: &Value) -> Option<Op> {
+        let n = |i: usize| v.get(i).and_then(|x| x.as_u64()).map(|x| x as usize);
+        Some(match v.get(0)?.as_str()? {
+            "I" => Op::I(n(1)?, n(2)?),
+            "R" => Op::R(n(1)?),
+            "L" => Op::L(n(1)?, n(2)?, n(3)?),
+            "E" => Op::E(n(1)?),
+            "F" => Op::F(n(1)?),
+            "G" => Op::G,
+            _ => return None,
+        })
+    }
+    fn text(&self) -> String {
+        match *self {
+            Op::I(p, s) => format!("I({p},{s})"),
+            Op::R(t) => format!("R{t}"),
+            Op::L(t, p, s) => format!("L({t},{p},{s})"),
+            Op::E(t) => format!("E{t}"),
+            Op::F(t) => format!("F{t}"),
+            Op::G => "G".to_string(),
+        }
+    }
+    fn kind(&self) -> &'static str {
+        match self {
+            Op::I(..) => "initiate",
+            Op::R(_) => "required",
+            Op::L(..) => "load",
+            Op::E(_) => "emit",
+            Op::F(_) => "free",
+            Op::G => "result",
+        }
+    }
+    fn target(&self) -> Option<usize> {
+        match *self {
+            Op::R(t) | Op::L(t, _, _) | Op::E(t) | Op::F(t) => Some(t),
+            _ => None,
+        }
+    }
+    fn sexp(&self) -> Sexp {
+        match *self {
+            Op::I(p, s) => Sexp::call("init", vec![Sexp::str(PATHS[p]), Sexp::int(s as i128)]),
+            Op::R(t) => Sexp::call("req", vec![Sexp::int(t as i128)]),
+            Op::L(t, p, s) => Sexp::call("load", vec![Sexp::int(t as i128), Sexp::str(PATHS[p]), Sexp::int(s as i128)]),
+            Op::E(t) => Sexp::call("emit", vec![Sexp::int(t as i128)]),
+            Op::F(t) => Sexp::call("free", vec![Sexp::int(t as i128)]),
+            Op::G => Sexp::call("res", vec![]),
+        }
+    }
 }
-fn main() {
-    let which = std::env::args().nth(1).unwrap_or_default();
-    let src = match which.as_str() {
-        "missing" => "query Q { ...Missing }",
-        "anon" => "query { a }",
-        "bad" => "query {",
-        "imp" => "#import F from \"./f.graphql\"\nquery Q { ...F }",
-        _ => "query Q { a }",
+
+pub fn hist_json(h: &History) -> String {
+    let mut s = String::with_capacity(h.len() * 12 + 2);
+    s.push('[');
+    for (i, op) in h.iter().enumerate() {
+        if i > 0 {
+            s.push(',');
+        }
+        match *op {
+            Op::I(p, x) => s.push_str(&format!("[\"I\",{p},{x}]")),
+            Op::R(t) => s.push_str(&format!("[\"R\",{t}]")),
+            Op::L(t, p, x) => s.push_str(&format!("[\"L\",{t},{p},{x}]")),
+            Op::E(t) => s.push_str(&format!("[\"E\",{t}]")),
+            Op::F(t) => s.push_str(&format!("[\"F\",{t}]")),
+            Op::G => s.push_str("[\"G\"]"),
+        }
+    }
+    s.push(']');
+    s
+}
+
+fn hist_text(h: &History) -> String {
+    h.iter().map(|o| o.text()).collect::<Vec<_>>().join(" ")
+}
+
+fn case_json(h: &History) -> Value {
+    json!({ "ops": h.iter().map(|o| o.json()).collect::<Vec<_>>() })
+}
+
+fn case_from_json(v: &Value) -> Option<History> {
+    v.get("ops")?.as_array()?.iter().map(Op::from_json).collect()
+}
+
+/// parse result of a pool source, computed with the REAL parser directly (not via the loader)
+type ParseInfo = Result<Vec<String>, u32>;
+
+fn parse_info(src: &str) -> ParseInfo {
+    let doc = match nitrogql_parser::parse_operation_document(src) {
+        Ok(d) => d,
+        Err(_) => return Err(1),
     };
-    let (fp, fl) = put("/p/op.graphql");
-    let (sp, sl) = put(src);
-    let id = ln::initiate_task(fp, fl, sp, sl);
-    unsafe { ln::free_string(fp, fl); ln::free_string(sp, sl) };
-    println!("id={id}");
-    if id == 0 { println!("err={}", result()); return; }
-    println!("req={} [{}]", ln::get_required_files(id), result());
-    let r = std::panic::catch_unwind(|| ln::emit_js(id));
-    println!("emit={r:?} [{}]", result());
-    println!("req99={} [{}]", ln::get_required_files(99), result());
-    ln::free_task(id);
-    ln::free_task(id);
-    println!("emit-after-free={} [{}]", ln::emit_js(id), result());
+    match nitrogql_semantics::resolve_operation_extensions(doc) {
+        Err(_) => Err(2),
+        Ok((_, ext)) => Ok(ext.imports.iter().map(|i| i.path.value.clone()).collect()),
+    }
+}
+
+fn src_class(s: usize) -> &'static str {
+    match s {
+        0 | 3 | 6 => "valid",
+        1 | 2 | 7 | 9 => "import",
+        4 | 8 => "invalid",
+        5 => "missing-fragment",
+        _ => "n/a",
+    }
+}
+
+fn resolve(from: &str, imp: &str) -> String {
+    nitrogql_utils::resolve_relative_path(Path::new(from), Path::new(imp)).to_string_lossy().into_owned()
+}
+
+fn path_index(p: &str) -> Option<usize> {
+    PATHS.iter().position(|x| *x == p)
+}
+
+// ---------------------------------------------------------------------------------------------
+// the harness' own bookkeeping of what a history should have done (spec side of O; also used by the
+// generators). Independent of the Lean model and of the loader.
+
+#[derive(Clone, Debug)]
+struct TaskBk {
+    root: String,
+    root_src_at_init: usize,
+    files: BTreeMap<String, usize>,
+}
+
+#[derive(Clone, Copy, PartialEq, Eq, Debug)]
+enum IdClass {
+    Live,
+    Freed,
+    Never,
+    NA,
+}
+
+impl IdClass {
+    fn text(self) -> &'static str {
+        match self {
+            IdClass::Live => "live",
+            IdClass::Freed => "freed",
+            IdClass::Never => "never",
+            IdClass::NA => "n/a",
+        }
+    }
+}
+
+struct Book<'a> {
+    info: &'a [ParseInfo],
+    ok_inits: usize,
+    /// (id, index of the initiate that issued it)
+    issued: Vec<(usize, usize)>,
+    live: BTreeMap<usize, TaskBk>,
+    freed: BTreeSet<usize>,
+    has_result: bool,
+    resupplied: bool,
+    /// (id, op index) of every call addressed to an issued id
+    addressed: Vec<(usize, usize)>,
+    addressed_unknown: bool,
+    at: usize,
+}
+
+impl<'a> Book<'a> {
+    fn new(info: &'a [ParseInfo]) -> Book<'a> {
+        Book {
+            info,
+            ok_inits: 0,
+            issued: vec![],
+            live: BTreeMap::new(),
+            freed: BTreeSet::new(),
+            has_result: false,
+            resupplied: false,
+            addressed: vec![],
+            addressed_unknown: false,
+            at: 0,
+        }
+    }
+    fn class(&self, op: &Op) -> IdClass {
+        match op.target() {
+            None => IdClass::NA,
+            Some(t) if self.live.contains_key(&t) => IdClass::Live,
+            Some(t) if self.freed.contains(&t) => IdClass::Freed,
+            Some(_) => IdClass::Never,
+        }
+    }
+    /// source class relevant to the call: the supplied source, or (required/emit on a live task) the root's
+    fn src_class(&self, op: &Op) -> &'static str {
+        match *op {
+            Op::I(_, s) | Op::L(_, _, s) => src_class(s),
+            Op::R(t) | Op::E(t) => match self.live.get(&t) {
+                Some(tk) => src_class(*tk.files.get(&tk.root).unwrap_or(&tk.root_src_at_init)),
+                None => "n/a",
+            },
+            _ => "n/a",
+        }
+    }
+    fn required(&self, t: usize) -> BTreeSet<String> {
+        let mut out = BTreeSet::new();
+        if let Some(tk) = self.live.get(&t) {
+            for (from, s) in &tk.files {
+                if let Ok(imps) = &self.info[*s] {
+                    for imp in imps {
+                        let p = resolve(from, imp);
+                        if !tk.files.contains_key(&p) {
+                            out.insert(p);
+                        }
+                    }
+                }
+            }
+        }
+        out
+    }
+    /// the history that gives a FRESH task exactly the bookkept files of `t` and emits
+    fn fresh_history(&self, t: usize) -> Option<History> {
+        let tk = self.live.get(&t)?;
+        let mut h = vec![Op::I(path_index(&tk.root)?, *tk.files.get(&tk.root)?)];
+        for (p, s) in &tk.files {
+            if *p != tk.root {
+                h.push(Op::L(1, path_index(p)?, *s));
+            }
+        }
+        h.push(Op::E(1));
+        Some(h)
+    }
+    fn apply(&mut self, op: &Op) {
+        let at = self.at;
+        self.at += 1;
+        if let Some(t) = op.target() {
+            if self.issued.iter().any(|(id, _)| *id == t) {
+                self.addressed.push((t, at));
+            }
+            if !self.live.contains_key(&t) {
+                self.addressed_unknown = true;
+            }
+        }
+        match *op {
+            Op::I(p, s) => {
+                if self.info[s].is_ok() {
+                    self.ok_inits += 1;
+                    let id = self.ok_inits;
+                    let mut files = BTreeMap::new();
+                    files.insert(PATHS[p].to_string(), s);
+                    self.live.insert(id, TaskBk { root: PATHS[p].to_string(), root_src_at_init: s, files });
+                    self.issued.push((id, at));
+                } else {
+                    self.has_result = true;
+                }
+            }
+            Op::R(_) | Op::E(_) => self.has_result = true,
+            Op::L(t, p, s) => {
+                let ok = self.info[s].is_ok();
+                match self.live.get_mut(&t) {
+                    Some(tk) => {
+                        if tk.files.contains_key(PATHS[p]) {
+                            self.resupplied = true;
+                        }
+                        if ok {
+                            tk.files.insert(PATHS[p].to_string(), s);
+                        } else {
+                            self.has_result = true;
+                        }
+                    }
+                    None => self.has_result = true,
+                }
+            }
+            Op::F(t) => {
+                if self.live.remove(&t).is_some() {
+                    self.freed.insert(t);
+                }
+            }
+            Op::G => {}
+        }
+    }
+    fn nontrivial(&self) -> bool {
+        if self.addressed_unknown || self.resupplied {
+            return true;
+        }
+        // two distinct issued ids, both addressed after both exist
+        for (b, issued_at) in &self.issued {
+            let b_addr = self.addressed.iter().any(|(t, k)| t == b && k > issued_at);
+            if !b_addr {
+                continue;
+            }
+            for (a, a_issued) in &self.issued {
+                if a == b || a_issued > issued_at {
+                    continue;
+                }
+                if self.addressed.iter().any(|(t, k)| t == a && k > issued_at) {
+                    return true;
+                }
+            }
+        }
+        false
+    }
+}
+
+// ---------------------------------------------------------------------------------------------
+// canonicalisation
+
+fn classify_msg(msg: &str) -> Sexp {
+    if msg == "Task not found" {
+        Sexp::atom("notfound")
+    } else if msg.starts_with("Parse error") {
+        Sexp::call("src", vec![Sexp::int(1)])
+    } else if msg.starts_with("Wildcard import") {
+        Sexp::call("src", vec![Sexp::int(2)])
+    } else {
+        Sexp::call("other", vec![Sexp::str(msg)])
+    }
+}
+
+fn files_sorted(text: &str) -> Vec<String> {
+    let mut v: Vec<String> = text.split('\n').filter(|s| !s.is_empty()).map(|s| s.to_string()).collect();
+    v.sort();
+    v
+}
+
+fn files_sexp(text: &str) -> Sexp {
+    Sexp::call("files", files_sorted(text).into_iter().map(Sexp::str).collect())
+}
+
+/// the real response in the model's shape
+fn canon(r: &RealResp) -> Sexp {
+    match r {
+        RealResp::Id(n) => Sexp::call("id", vec![Sexp::int(*n as i128)]),
+        RealResp::Fail(m) => Sexp::call("failed", vec![classify_msg(m)]),
+        RealResp::Files(t) => files_sexp(t),
+        RealResp::Ok => Sexp::call("loaded", vec![]),
+        RealResp::Js(h, n) => Sexp::call("js-real", vec![Sexp::str(h.as_str()), Sexp::int(*n as i128)]),
+        RealResp::Freed => Sexp::call("freed", vec![]),
+        RealResp::Res(t, h) => Sexp::call("result-real", vec![Sexp::str(t.as_str()), Sexp::str(h.as_str())]),
+        RealResp::Trap { .. } | RealResp::Dead => Sexp::call("trap", vec![]),
+        RealResp::Bad(t) => Sexp::call("bad", vec![Sexp::str(t.as_str())]),
+    }
+}
+
+/// equality of two real responses (file lists as sets: HashMap iteration order is not part of the contract)
+fn resp_eq(a: &RealResp, b: &RealResp) -> bool {
+    match (a, b) {
+        (RealResp::Files(x), RealResp::Files(y)) => files_sorted(x) == files_sorted(y),
+        (x, y) if x.is_trap() && y.is_trap() => true,
+        (x, y) => x == y,
+    }
+}
+
+fn show(r: &RealResp) -> String {
+    r.to_json().to_string()
+}
+
+/// history realising a model emission token `("root" ("path" i)|("path" missing) …)`
+fn token_history(tok: &Sexp) -> Option<History> {
+    let items = tok.as_list()?;
+    let root = items.first()?.as_str()?;
+    let mut root_src = None;
+    let mut loads = vec![];
+    for e in &items[1..] {
+        let e = e.as_list()?;
+        let p = e.first()?.as_str()?;
+        let Some(i) = e.get(1)?.as_int() else { continue }; // `missing`
+        if p == root {
+            root_src = Some(i as usize);
+        } else {
+            loads.push(Op::L(1, path_index(p)?, i as usize));
+        }
+    }
+    let mut h = vec![Op::I(path_index(root)?, root_src?)];
+    h.extend(loads);
+    h.push(Op::E(1));
+    Some(h)
+}
+
+// ---------------------------------------------------------------------------------------------
+
+#[derive(Clone, Debug)]
+struct Finding {
+    stream: &'static str,
+    sig: String,
+    what: String,
+    at: usize,
+}
+
+#[derive(Clone)]
+struct Item {
+    h: History,
+    kind: &'static str,
+    iso: bool,
+}
+
+struct Ctx {
+    rep: Report,
+    drv: Driver,
+    wp: WorkerPool,
+    info: Vec<ParseInfo>,
+    pool_sexp: Sexp,
+    /// last response of a fresh `[I …, L 1 …, E 1]` history
+    fresh: HashMap<History, RealResp>,
+    shrink_runs: u64,
+    samples_random: u32,
+}
+
+fn projection(h: &History, t: usize, issued_at: usize) -> (History, Vec<usize>) {
+    let mut out = vec![];
+    let mut pos = vec![];
+    for (k, op) in h.iter().enumerate() {
+        let keep = if k == issued_at { true } else { op.target() == Some(t) };
+        if !keep {
+            continue;
+        }
+        pos.push(k);
+        out.push(match *op {
+            Op::R(_) => Op::R(1),
+            Op::L(_, p, s) => Op::L(1, p, s),
+            Op::E(_) => Op::E(1),
+            Op::F(_) => Op::F(1),
+            o => o,
+        });
+    }
+    (out, pos)
+}
+
+impl Ctx {
+    fn request(&self, h: &History) -> Sexp {
+        Sexp::call("hist", vec![self.pool_sexp.clone(), Sexp::call("ops", h.iter().map(|o| o.sexp()).collect())])
+    }
+
+    /// model answers + real responses + every auxiliary real run, then K and O per history
+    fn evaluate(&mut self, items: &[Item], record: bool) -> Vec<Vec<Finding>> {
+        let reqs: Vec<Sexp> = items.iter().map(|it| self.request(&it.h)).collect();
+        let hs: Vec<History> = items.iter().map(|it| it.h.clone()).collect();
+        let (model, real) = {
+            let (drv, wp) = (&mut self.drv, &mut self.wp);
+            std::thread::scope(|s| {
+                let m = s.spawn(move || drv.batch(&reqs));
+                let r = wp.run_histories(&hs);
+                (m.join().expect("driver thread"), r)
+            })
+        };
+        // auxiliary histories: realisations of the model's tokens, fresh tasks for emit, projections
+        let mut need: Vec<History> = vec![];
+        let mut seen: HashSet<History> = HashSet::new();
+        let mut n_fresh = 0u64;
+        let mut n_proj = 0u64;
+        for (idx, it) in items.iter().enumerate() {
+            for a in model[idx].args() {
+                let tok = match a.head() {
+                    Some("js") => a.args().first(),
+                    Some("result") => a.args().first().filter(|x| x.head() == Some("js")).and_then(|x| x.args().first()),
+                    _ => None,
+                };
+                if let Some(th) = tok.and_then(token_history) {
+                    if !self.fresh.contains_key(&th) && seen.insert(th.clone()) {
+                        need.push(th);
+                        n_fresh += 1;
+                    }
+                }
+            }
+            let mut book = Book::new(&self.info);
+            for op in &it.h {
+                if let Op::E(t) = op {
+                    if let Some(fh) = book.fresh_history(*t) {
+                        if !self.fresh.contains_key(&fh) && seen.insert(fh.clone()) {
+                            need.push(fh);
+                            n_fresh += 1;
+                        }
+                    }
+                }
+                book.apply(op);
+            }
+            if it.iso {
+                for (t, at) in &book.issued {
+                    let (ph, _) = projection(&it.h, *t, *at);
+                    n_proj += 1;
+                    if seen.insert(ph.clone()) {
+                        need.push(ph);
+                    }
+                }
+            }
+        }
+        let extra_resps = self.wp.run_histories(&need);
+        let mut extra: HashMap<History, Vec<RealResp>> = HashMap::with_capacity(need.len());
+        for (h, r) in need.into_iter().zip(extra_resps) {
+            let fresh_shape = matches!(h.last(), Some(Op::E(1))) && matches!(h.first(), Some(Op::I(..))) && h[1..h.len() - 1].iter().all(|o| matches!(o, Op::L(1, _, _)));
+            if fresh_shape {
+                let last = r.get(h.len() - 1).cloned().unwrap_or(RealResp::Dead);
+                self.fresh.insert(h.clone(), last);
+            }
+            extra.insert(h, r);
+        }
+        if record {
+            self.rep.count_n("fresh-emit-runs", n_fresh);
+            self.rep.count_n("isolation-projections", n_proj);
+        }
+        let mut out = Vec::with_capacity(items.len());
+        for (idx, it) in items.iter().enumerate() {
+            out.push(self.check(it, &model[idx], &real[idx], &extra, record));
+        }
+        out
+    }
+
+    fn token_resp(&self, tok: &Sexp) -> Option<&RealResp> {
+        self.fresh.get(&token_history(tok)?)
+    }
+
+    fn k_agree(&self, op: &Op, m: &Sexp, r: &RealResp) -> bool {
+        match op {
+            Op::E(_) if m.head() == Some("js") => {
+                let Some(exp) = m.args().first().and_then(|t| self.token_resp(t)) else { return false };
+                if matches!(r, RealResp::Fail(msg) if msg == "Task not found") {
+                    return false;
+                }
+                resp_eq(r, exp)
+            }
+            Op::G => match m.head() {
+                Some("trap") => r.is_trap(),
+                Some("result") => {
+                    let RealResp::Res(text, hash) = r else { return false };
+                    let Some(x) = m.args().first() else { return false };
+                    match x.head() {
+                        Some("msg") => x.args().first() == Some(&classify_msg(text)),
+                        Some("files") => *x == files_sexp(text),
+                        Some("js") => match x.args().first().and_then(|t| self.token_resp(t)) {
+                            Some(RealResp::Js(h, _)) => h == hash,
+                            Some(RealResp::Fail(msg)) => format!("{:016x}", nvh::report::fnv(msg)) == *hash,
+                            _ => false,
+                        },
+                        _ => false,
+                    }
+                }
+                _ => false,
+            },
+            _ => canon(r) == *m,
+        }
+    }
+
+    fn check(&mut self, it: &Item, model: &Sexp, real: &[RealResp], extra: &HashMap<History, Vec<RealResp>>, record: bool) -> Vec<Finding> {
+        let h = &it.h;
+        let mut findings: Vec<Finding> = vec![];
+        let dead = RealResp::Dead;
+        let margs: &[Sexp] = if model.head() == Some("ok") { model.args() } else { &[] };
+        if margs.len() != h.len() {
+            findings.push(Finding { stream: "K", sig: "model-answer".into(), what: format!("model answered {} to {}", model, hist_text(h)), at: h.len().saturating_sub(1) });
+        }
+        // ---- K: call by call (stop at the first difference: later ones are consequences)
+        let mut k_cases = 0u64;
+        if margs.len() == h.len() {
+            for (i, op) in h.iter().enumerate() {
+                let r = real.get(i).unwrap_or(&dead);
+                k_cases += 1;
+                if !self.k_agree(op, &margs[i], r) {
+                    let mut what = format!("call {i} `{}` of [{}]: model {} real {}", op.text(), hist_text(h), margs[i], show(r));
+                    if let Some(tok) = match margs[i].head() {
+                        Some("js") => margs[i].args().first(),
+                        Some("result") => margs[i].args().first().filter(|x| x.head() == Some("js")).and_then(|x| x.args().first()),
+                        _ => None,
+                    } {
+                        what.push_str(&format!("; fresh realisation of the token [{}] answers {}",
+                            token_history(tok).map(|t| hist_text(&t)).unwrap_or_else(|| "?".into()),
+                            self.token_resp(tok).map(show).unwrap_or_else(|| "nothing".into())));
+                    }
+                    findings.push(Finding { stream: "K", sig: op.kind().to_string(), what, at: i });
+                    break;
+                }
+            }
+        }
+        // ---- O: the property on the real responses, with the harness' own bookkeeping
+        let mut book = Book::new(&self.info);
+        let mut kinds: BTreeSet<&'static str> = BTreeSet::new();
+        kinds.insert("trap");
+        let mut o_broken = false;
+        let mut trapped = false;
+        let mut misuse = 0u64;
+        for (i, op) in h.iter().enumerate() {
+            let r = real.get(i).unwrap_or(&dead);
+            let cls = book.class(op);
+            if record {
+                self.rep.count(&format!("call:{}:{}", op.kind(), cls.text()));
+                if let Op::I(_, s) | Op::L(_, _, s) = op {
+                    self.rep.count(&format!("src:{}", src_class(*s)));
+                }
+            }
+            if !o_broken && !trapped {
+                let mut fail = |sig: String, what: String| {
+                    findings.push(Finding { stream: "O", sig, what: format!("call {i} `{}` of [{}]: {what}", op.text(), hist_text(h)), at: i });
+                };
+                match (op, r) {
+                    (_, RealResp::Trap { why }) => {
+                        trapped = true;
+                        if *op == Op::G && !book.has_result {
+                            misuse += 1; // documented protocol misuse (DESIGN §9 row am), not a failure
+                        } else {
+                            o_broken = true;
+                            fail(format!("trap:{}:{}:{}", op.kind(), cls.text(), book.src_class(op)), format!("the loader died: {why}"));
+                        }
+                    }
+                    (_, RealResp::Dead) | (_, RealResp::Bad(_)) => {
+                        o_broken = true;
+                        fail(format!("trap:{}:{}:{}", op.kind(), cls.text(), book.src_class(op)), format!("no usable answer: {}", show(r)));
+                    }
+                    (Op::I(_, s), _) => {
+                        kinds.insert("ids");
+                        let ok = match (&self.info[*s], r) {
+                            (Ok(_), RealResp::Id(n)) => *n == book.ok_inits as u64 + 1 && *n != 0,
+                            (Err(_), RealResp::Fail(m)) => !m.is_empty(),
+                            _ => false,
+                        };
+                        if !ok {
+                            o_broken = true;
+                            let exp = if self.info[*s].is_ok() { format!("id {}", book.ok_inits + 1) } else { "0 with a message".to_string() };
+                            fail("ids".into(), format!("expected {exp}, real {}", show(r)));
+                        }
+                    }
+                    (_, _) if cls == IdClass::Freed || cls == IdClass::Never => {
+                        kinds.insert("unknown-id");
+                        let ok = match op {
+                            Op::F(_) => *r == RealResp::Freed,
+                            _ => matches!(r, RealResp::Fail(m) if m == "Task not found"),
+                        };
+                        if !ok {
+                            o_broken = true;
+                            fail(format!("unknown-id:{}:{}", op.kind(), cls.text()), format!("id is {} but real answered {}", cls.text(), show(r)));
+                        }
+                    }
+                    (Op::R(t), _) => {
+                        kinds.insert("required-exact");
+                        let exp = book.required(*t);
+                        let ok = match r {
+                            RealResp::Files(text) => {
+                                let got = files_sorted(text);
+                                let set: BTreeSet<String> = got.iter().cloned().collect();
+                                set.len() == got.len() && set == exp
+                            }
+                            _ => false,
+                        };
+                        if !ok {
+                            o_broken = true;
+                            fail("required-exact".into(), format!("expected exactly {:?}, real {}", exp, show(r)));
+                        }
+                    }
+                    (Op::L(_, _, s), _) => {
+                        kinds.insert("load");
+                        let ok = match (&self.info[*s], r) {
+                            (Ok(_), RealResp::Ok) => true,
+                            (Err(_), RealResp::Fail(m)) => !m.is_empty() && m != "Task not found",
+                            _ => false,
+                        };
+                        if !ok {
+                            o_broken = true;
+                            fail("load".into(), format!("source {} ({}) on a live task, real {}", s, src_class(*s), show(r)));
+                        }
+                    }
+                    (Op::E(t), _) => {
+                        kinds.insert("emit-fresh");
+                        let fh = book.fresh_history(*t);
+                        let exp = fh.as_ref().and_then(|f| self.fresh.get(f));
+                        let ok = match exp {
+                            Some(e) => resp_eq(r, e) && matches!(r, RealResp::Js(..) | RealResp::Fail(_)) && !matches!(r, RealResp::Fail(m) if m == "Task not found"),
+                            None => false,
+                        };
+                        if !ok {
+                            o_broken = true;
+                            fail("emit-fresh".into(), format!("fresh task [{}] answers {}, real {}",
+                                fh.as_ref().map(hist_text).unwrap_or_default(), exp.map(show).unwrap_or_else(|| "nothing".into()), show(r)));
+                        }
+                    }
+                    (Op::F(_), _) => {
+                        kinds.insert("free");
+                        if *r != RealResp::Freed {
+                            o_broken = true;
+                            fail("free".into(), format!("real {}", show(r)));
+                        }
+                    }
+                    (Op::G, _) => {}
+                }
+            }
+            book.apply(op);
+        }
+        // death after the last call (thread exit drops the remaining tasks)
+        if !trapped && real.len() > h.len() {
+            if let Some(RealResp::Trap { why }) = real.get(h.len()) {
+                o_broken = true;
+                trapped = true;
+                findings.push(Finding { stream: "O", sig: "trap:thread-exit:n/a:n/a".into(), what: format!("after [{}]: {why}", hist_text(h)), at: h.len().saturating_sub(1) });
+            }
+        }
+        // isolation: every issued task answers as it does alone
+        if it.iso && !o_broken && !trapped {
+            for (t, at) in &book.issued {
+                kinds.insert("isolation");
+                let (ph, pos) = projection(h, *t, *at);
+                let Some(pr) = extra.get(&ph) else { continue };
+                for (k, full_at) in pos.iter().enumerate() {
+                    let full = match real.get(*full_at).unwrap_or(&dead) {
+                        RealResp::Id(n) if *n == *t as u64 => RealResp::Id(1),
+                        x => x.clone(),
+                    };
+                    let alone = pr.get(k).unwrap_or(&dead);
+                    if !resp_eq(&full, alone) {
+                        findings.push(Finding {
+                            stream: "O",
+                            sig: format!("isolation:{}", h[*full_at].kind()),
+                            what: format!("task {t} of [{}]: call {full_at} `{}` answers {} but alone (history [{}], call {k}) it answers {}",
+                                hist_text(h), h[*full_at].text(), show(&full), hist_text(&ph), show(alone)),
+                            at: *full_at,
+                        });
+                        break;
+                    }
+                }
+            }
+        }
+        if record {
+            self.rep.evaluations += 1;
+            self.rep.k_cases += k_cases;
+            self.rep.o_cases += kinds.len() as u64;
+            self.rep.count(&format!("hist:{}", it.kind));
+            self.rep.count_n("misuse:get-result-before-any-result", misuse);
+            if book.nontrivial() {
+                self.rep.nontrivial(&hist_text(h));
+            }
+        }
+        findings
+    }
+
+    fn has_failure(&self, stream: &str, sig: &str) -> bool {
+        self.rep.failures.iter().any(|f| f.stream == stream && f.signature == sig)
+    }
+
+    /// does `h` still show a finding of the given class? (all checks on, nothing recorded)
+    fn still_fails(&mut self, h: &History, stream: &str, sig: &str) -> Option<String> {
+        self.shrink_runs += 1;
+        let it = Item { h: h.clone(), kind: "shrink", iso: true };
+        let f = self.evaluate(std::slice::from_ref(&it), false).pop().unwrap();
+        f.into_iter().find(|g| g.stream == stream && g.sig == sig).map(|g| g.what)
+    }
+
+    fn shrink(&mut self, h: &History, f: &Finding) -> (History, String) {
+        let mut cur = h.clone();
+        let mut what = f.what.clone();
+        let mut budget = 60;
+        if f.at + 1 < cur.len() {
+            let cand: History = cur[..=f.at].to_vec();
+            budget -= 1;
+            if let Some(w) = self.still_fails(&cand, f.stream, &f.sig) {
+                cur = cand;
+                what = w;
+            }
+        }
+        let mut i = 0;
+        while cur.len() > 1 && i < cur.len() && budget > 0 {
+            let mut cand = cur.clone();
+            cand.remove(i);
+            budget -= 1;
+            match self.still_fails(&cand, f.stream, &f.sig) {
+                Some(w) => {
+                    cur = cand;
+                    what = w;
+                }
+                None => i += 1,
+            }
+        }
+        (cur, what)
+    }
+
+    /// evaluate a batch, shrink and report what failed
+    fn run(&mut self, items: &[Item]) -> Vec<Vec<Finding>> {
+        let all = self.evaluate(items, true);
+        for (it, fs) in items.iter().zip(all.iter()) {
+            for f in fs {
+                if self.has_failure(f.stream, &f.sig) {
+                    self.rep.fail(f.stream, &f.sig, &f.what, case_json(&it.h));
+                } else {
+                    let (small, what) = self.shrink(&it.h, f);
+                    let what = if small.len() < it.h.len() { format!("{what} (shrunk from [{}])", hist_text(&it.h)) } else { what };
+                    self.rep.fail(f.stream, &f.sig, &what, case_json(&small));
+                }
+            }
+        }
+        all
+    }
+}
+
+// ---------------------------------------------------------------------------------------------
+// generators
+
+fn corpus() -> Vec<History> {
+    use Op::*;
+    vec![
+        vec![I(0, 5), E(1)],
+        vec![I(0, 0), I(0, 5), E(2), R(1), E(1)],
+        vec![I(0, 1), R(1), L(1, 1, 2), R(1), L(1, 2, 3), R(1), E(1), F(1), E(1), F(1), R(1)],
+        vec![R(1), L(1, 1, 2), E(1), F(1)],
+        vec![I(0, 4), I(0, 0), R(1)],
+        vec![I(0, 1), L(1, 1, 2), L(1, 1, 6), E(1), L(1, 1, 4), E(1), R(1)],
+        vec![I(0, 0), G],
+        vec![I(0, 4), G],
+        vec![G],
+        vec![I(0, 8), G],
+        vec![I(3, 1), R(1), L(1, 4, 6), E(1)],
+        vec![I(0, 7), R(1), L(1, 2, 3), L(1, 1, 6), R(1), E(1)],
+        vec![I(0, 1), L(1, 1, 2), L(1, 2, 9), R(1), E(1)],
+        // the example of lean/Driver/C19.lean
+        vec![I(0, 1), R(1), L(1, 1, 2), R(1), E(1), I(0, 4), G, L(1, 2, 3), E(1), F(1), E(1), F(1), R(7)],
+        // two live tasks with different sources for the same path; re-supplied root
+        vec![I(0, 1), I(0, 1), L(1, 1, 6), L(2, 1, 2), L(2, 2, 3), E(1), E(2), G, L(1, 0, 0), E(1), R(1), R(2)],
+    ]
+}
+
+fn full_alphabet() -> Vec<Op> {
+    use Op::*;
+    let mut a = vec![I(0, 0), I(0, 1), I(0, 4), I(0, 5), I(0, 7)];
+    for t in [1, 2, 9] {
+        a.push(R(t));
+        a.push(E(t));
+        a.push(F(t));
+    }
+    for t in [1, 2, 9] {
+        for (p, s) in [(1, 2), (1, 6), (2, 3), (1, 4), (0, 0)] {
+            a.push(L(t, p, s));
+        }
+    }
+    a.push(G);
+    a
+}
+
+fn reduced_alphabet() -> Vec<Op> {
+    use Op::*;
+    vec![I(0, 1), I(0, 4), R(1), R(2), L(1, 1, 2), L(1, 2, 3), L(2, 1, 2), L(2, 2, 3), L(1, 1, 4), E(1), E(2), F(1), F(2)]
+}
+
+/// a `G` before any result-storing call could have happened kills the child (documented misuse): such
+/// sequences are skipped unless they are of length ≤ 2
+fn skip_misuse(h: &History) -> bool {
+    if h.len() <= 2 {
+        return false;
+    }
+    let mut maybe_result = false;
+    for op in h {
+        match op {
+            Op::G if !maybe_result => return true,
+            Op::G => {}
+            Op::I(_, s) if matches!(s, 0 | 1 | 5 | 7) => {}
+            Op::F(_) => {}
+            _ => maybe_result = true,
+        }
+    }
+    false
+}
+
+fn decode(alpha: &[Op], n: usize, mut idx: u64) -> History {
+    let b = alpha.len() as u64;
+    let mut h = vec![Op::G; n];
+    for k in (0..n).rev() {
+        h[k] = alpha[(idx % b) as usize];
+        idx /= b;
+    }
+    h
+}
+
+fn random_history(rng: &mut Rng, info: &[ParseInfo]) -> History {
+    let len = rng.range(5, 40) as usize;
+    let mut book = Book::new(info);
+    let mut h = vec![];
+    while h.len() < len {
+        let x = rng.below(100);
+        let op = if x < 15 {
+            if book.live.len() >= 4 {
+                continue;
+            }
+            Op::I(rng.below(PATHS.len()), rng.below(POOL.len()))
+        } else if x >= 95 {
+            if book.has_result || rng.chance(1, 200) {
+                Op::G
+            } else {
+                continue;
+            }
+        } else {
+            let y = rng.below(10);
+            let live: Vec<usize> = book.live.keys().cloned().collect();
+            let freed: Vec<usize> = book.freed.iter().cloned().collect();
+            let never = [0, book.ok_inits + 1, book.ok_inits + 4, 1_000_000];
+            let t = if y < 8 && !live.is_empty() {
+                *rng.pick(&live)
+            } else if y == 8 && !freed.is_empty() {
+                *rng.pick(&freed)
+            } else {
+                *rng.pick(&never)
+            };
+            if x < 35 {
+                Op::R(t)
+            } else if x < 65 {
+                let wanted: Vec<usize> = book.required(t).iter().filter_map(|p| path_index(p)).collect();
+                if !wanted.is_empty() && rng.chance(7, 10) {
+                    Op::L(t, *rng.pick(&wanted), *rng.pick(&[2, 3, 6, 9]))
+                } else {
+                    Op::L(t, rng.below(PATHS.len()), rng.below(POOL.len()))
+                }
+            } else if x < 85 {
+                Op::E(t)
+            } else {
+                Op::F(t)
+            }
+        };
+        book.apply(&op);
+        h.push(op);
+    }
+    h
+}
+
+// ---------------------------------------------------------------------------------------------
+
+const BATCH: usize = 40_000;
+
+struct Feeder {
+    buf: Vec<Item>,
+    iso_counter: u64,
+    sampled: u32,
+}
+
+impl Feeder {
+    fn push(&mut self, ctx: &mut Ctx, h: History, kind: &'static str) {
+        let iso = match kind {
+            "exhaustive-full" | "exhaustive-reduced" | "sample-full4" => {
+                self.iso_counter += 1;
+                self.iso_counter % 7 == 0
+            }
+            _ => true,
+        };
+        self.buf.push(Item { h, kind, iso });
+        if self.buf.len() >= BATCH {
+            self.flush(ctx);
+        }
+    }
+    fn flush(&mut self, ctx: &mut Ctx) {
+        if self.buf.is_empty() {
+            return;
+        }
+        let items = std::mem::take(&mut self.buf);
+        ctx.run(&items);
+    }
+}
+
+fn exhaustive(ctx: &mut Ctx, fd: &mut Feeder, alpha: &[Op], n: usize, kind: &'static str) -> (u64, u64) {
+    let total = (alpha.len() as u64).pow(n as u32);
+    let (mut run, mut skipped) = (0, 0);
+    for idx in 0..total {
+        let h = decode(alpha, n, idx);
+        if skip_misuse(&h) {
+            skipped += 1;
+            continue;
+        }
+        run += 1;
+        fd.push(ctx, h, kind);
+    }
+    fd.flush(ctx);
+    (run, skipped)
+}
+
+fn main() {
+    let argv: Vec<String> = std::env::args().collect();
+    if argv.iter().any(|a| a == "--worker") {
+        worker::main(argv.iter().any(|a| a == "--careful"));
+        return;
+    }
+    let args = Args::parse();
+    let t0 = std::time::Instant::now();
+    let info: Vec<ParseInfo> = POOL.iter().map(|s| parse_info(s)).collect();
+    let pool_sexp = Sexp::call(
+        "pool",
+        info.iter()
+            .map(|r| match r {
+                Ok(imps) => Sexp::call("ok", imps.iter().map(|p| Sexp::str(p.as_str())).collect()),
+                Err(c) => Sexp::call("err", vec![Sexp::int(*c as i128)]),
+            })
+            .collect(),
+    );
+    let header = json!({ "pool": POOL, "paths": PATHS }).to_string();
+    let n_workers = std::thread::available_parallelism().map(|n| n.get()).unwrap_or(1).min(8);
+    let cfg = Cfg { exe: std::env::current_exe().expect("current_exe"), header };
+    let mut ctx = Ctx {
+        rep: Report::new("C19", RULE),
+        drv: Driver::spawn(&args.driver),
+        wp: WorkerPool::new(cfg, n_workers),
+        info,
+        pool_sexp,
+        fresh: HashMap::new(),
+        shrink_runs: 0,
+        samples_random: 0,
+    };
+    let mut rng = Rng::new(args.seed);
+
+    if let Some(file) = &args.replay {
+        let text = std::fs::read_to_string(file).expect("read replay file");
+        let v: Value = serde_json::from_str(&text).expect("replay file is JSON");
+        let case = v.get("case").cloned().unwrap_or(v.clone());
+        match case_from_json(&case) {
+            Some(h) if h.iter().all(|o| match *o {
+                Op::I(p, s) | Op::L(_, p, s) => p < PATHS.len() && s < POOL.len(),
+                _ => true,
+            }) => {
+                let it = Item { h: h.clone(), kind: "replay", iso: true };
+                // same comparisons; the case is reported as given (no shrinking)
+                let fs = ctx.evaluate(std::slice::from_ref(&it), true).pop().unwrap();
+                for f in fs {
+                    ctx.rep.fail(f.stream, &f.sig, &f.what, case_json(&h));
+                }
+            }
+            _ => ctx.rep.fail("K", "bad-replay-case", &format!("cannot read a history from {file}"), case),
+        }
+        finish(ctx, &args, t0);
+        return;
+    }
+
+    let thorough = args.thorough() || args.extra.get("search").map(|s| s == "1").unwrap_or(false);
+    let mut fd = Feeder { buf: vec![], iso_counter: 0, sampled: 0 };
+
+    // 1. corpus
+    let corpus_items: Vec<Item> = corpus().into_iter().map(|h| Item { h, kind: "corpus", iso: true }).collect();
+    let hs: Vec<History> = corpus_items.iter().map(|i| i.h.clone()).collect();
+    ctx.run(&corpus_items);
+    // samples with their real responses (re-run: cheap)
+    let sample_ix = [2usize, 5, 8];
+    let sample_hs: Vec<History> = sample_ix.iter().map(|i| hs[*i].clone()).collect();
+    let sample_rs = ctx.wp.run_histories(&sample_hs);
+    for (h, r) in sample_hs.iter().zip(sample_rs) {
+        ctx.rep.sample(json!({ "ops": hist_text(h), "real": r.iter().map(|x| x.to_json()).collect::<Vec<_>>() }));
+    }
+
+    // 2. exhaustive
+    let full = full_alphabet();
+    let reduced = reduced_alphabet();
+    assert_eq!(full.len(), 30);
+    assert_eq!(reduced.len(), 13);
+    let (full_n, red_n) = if thorough { (4, 5) } else { (3, 4) };
+    let mut full_counts = vec![];
+    for n in 1..=full_n {
+        let (run, skipped) = exhaustive(&mut ctx, &mut fd, &full, n, "exhaustive-full");
+        full_counts.push(json!({ "len": n, "run": run, "skipped_get_result_misuse": skipped }));
+    }
+    let (red_run, _) = exhaustive(&mut ctx, &mut fd, &reduced, red_n, "exhaustive-reduced");
+
+    // 3. random sample of FULL sequences of length 4 (quick only: thorough has them all)
+    let sample4 = if thorough { 0 } else { 20_000 };
+    let mut drawn = 0;
+    while drawn < sample4 {
+        let h: History = (0..4).map(|_| *rng.pick(&full)).collect();
+        if skip_misuse(&h) {
+            continue;
+        }
+        drawn += 1;
+        fd.push(&mut ctx, h, "sample-full4");
+    }
+    fd.flush(&mut ctx);
+
+    // 4. random long histories
+    let n_random = if thorough { 20_000 } else { 2_000 };
+    let mut random_samples: Vec<History> = vec![];
+    for k in 0..n_random {
+        let h = random_history(&mut rng, &ctx.info);
+        if k < 3 {
+            random_samples.push(h.clone());
+        }
+        fd.push(&mut ctx, h, "random");
+    }
+    fd.flush(&mut ctx);
+    let rs = ctx.wp.run_histories(&random_samples);
+    for (h, r) in random_samples.iter().zip(rs) {
+        ctx.rep.sample(json!({ "ops": hist_text(h), "real": r.iter().map(|x| x.to_json()).collect::<Vec<_>>() }));
+    }
+    let _ = (fd.sampled, ctx.samples_random);
+
+    ctx.rep.exhaustive = true;
+    ctx.rep.extra.insert("exhaustive_full_len".into(), json!(full_n));
+    ctx.rep.extra.insert("exhaustive_reduced_len".into(), json!(red_n));
+    ctx.rep.extra.insert("exhaustive_full_counts".into(), json!(full_counts));
+    ctx.rep.extra.insert("exhaustive_reduced_count".into(), json!(red_run));
+    ctx.rep.extra.insert("sample_full4_count".into(), json!(sample4));
+    ctx.rep.extra.insert("random_long_count".into(), json!(n_random));
+    ctx.rep.extra.insert("full_alphabet".into(), json!(full.iter().map(|o| o.text()).collect::<Vec<_>>()));
+    ctx.rep.extra.insert("reduced_alphabet".into(), json!(reduced.iter().map(|o| o.text()).collect::<Vec<_>>()));
+    finish(ctx, &args, t0);
+}
+
+fn finish(mut ctx: Ctx, args: &Args, t0: std::time::Instant) {
+    ctx.wp.shutdown();
+    let st = ctx.wp.stats.clone();
+    if st.lencap_violations > 0 {
+        ctx.rep.fail(
+            "O",
+            "lencap",
+            &format!("{} of {} len==capacity checks failed: String::with_capacity(n).capacity() != n or String::from_utf8(bytes.to_vec()) has len != capacity; the loader's from_raw_parts calls would then pass a wrong capacity to the allocator", st.lencap_violations, st.lencap_checks),
+            json!({ "ops": [] }),
+        );
+    }
+    ctx.rep.o_cases += 1; // lencap
+    ctx.rep.extra.insert("lencap_checks".into(), json!(st.lencap_checks));
+    ctx.rep.extra.insert("lencap_violations".into(), json!(st.lencap_violations));
+    ctx.rep.extra.insert("workers".into(), json!(ctx.wp.size()));
+    ctx.rep.extra.insert("worker_processes_spawned".into(), json!(st.spawned));
+    ctx.rep.extra.insert("worker_deaths".into(), json!(st.deaths));
+    ctx.rep.extra.insert("worker_timeouts".into(), json!(st.timeouts));
+    ctx.rep.extra.insert("careful_reruns".into(), json!(st.careful_runs));
+    ctx.rep.extra.insert("careful_reruns_that_survived".into(), json!(st.careful_survived));
+    ctx.rep.extra.insert("real_histories_run".into(), json!(st.histories));
+    ctx.rep.extra.insert("distinct_fresh_emit_histories".into(), json!(ctx.fresh.len()));
+    ctx.rep.extra.insert("shrink_runs".into(), json!(ctx.shrink_runs));
+    ctx.rep.extra.insert("model_requests".into(), json!(ctx.drv.requests));
+    ctx.rep.extra.insert("wall_seconds".into(), json!(t0.elapsed().as_secs_f64()));
+    ctx.rep.extra.insert("pool_sources".into(), json!(POOL));
+    ctx.rep.extra.insert("paths".into(), json!(PATHS));
+    ctx.rep.notes.push("The real ABI functions (alloc_string, free_string, initiate_task, get_required_files, load_file, emit_js, free_task, get_result_ptr, get_result_size) ran in child processes (`c19 --worker`), one fresh thread (= fresh thread-local loader instance) per history, because a panic inside an `extern \"C\"` function aborts the process and cannot be caught; a child death is attributed to the exact call by re-running the history alone in a child that flushes after every call.".into());
+    ctx.rep.notes.push("len==capacity check: for every string passed through the ABI the worker mirrors the loader's constructions and checks String::with_capacity(n).capacity() == n (alloc_string/free_string rebuild the String from (ptr, 0, n)) and that String::from_utf8(bytes.to_vec()) has len == capacity (read_str_ptr → register_file records (ptr,len,capacity) and then calls into_boxed_str, which must not reallocate). Counters of workers that died (get-result misuse) are lost; counts are of the surviving workers.".into());
+    ctx.rep.notes.push("Emit equality (history under test vs fresh task, and vs the realisation of the model's token) is by 64-bit FNV-1a hash plus byte length of the emitted text, or equality of the error message.".into());
+    ctx.rep.notes.push("Miri/ASan were not run (optional in DESIGN): allocator-level safety of the raw-parts code is observed only as \"no abort / no crash of the worker\", including the drop of the remaining tasks at thread exit.".into());
+    ctx.rep.notes.push("A `G` (get_result_ptr/size) before any result was stored unwraps None and aborts: documented protocol misuse (DESIGN §9 row am; the JS side never does it). Model `(trap)` + real death there is K agreement and is counted as misuse:get-result-before-any-result, not as an O failure. Exhaustive sequences longer than 2 that contain such a G are skipped to keep child restarts rare.".into());
+    ctx.rep.write(args);
 }
